@@ -24,6 +24,8 @@ def rounds_to_zero(x: float, p: int):
         return False
     v = abs(Fraction(x)) * 10 ** p
     half = Fraction(1, 2)
+    if v == half:
+        return True                      # an exactly representable tie: round-half-even gives 0
     if abs(v - half) <= half * Fraction(4, 2 ** 52):
         return None
     return v <= half
